@@ -78,6 +78,8 @@ def run_variant(prop, v, repo_src):
         return {"name": v["name"], "kind": v["kind"], "status": status,
                 "findings": [(f["rule"], f["function"], f["construct"][:80])
                              for f in new][:5],
+                "keys": [(f["property"], f["rule"], f["function"], f["construct"])
+                         for f in new],
                 "error": res.get("error")}
     finally:
         shutil.rmtree(tmp, ignore_errors=True)
@@ -97,6 +99,16 @@ def attach(ctx, mod):
     """Thorough tier: run the variants and put the kill matrix into the
     evidence; a false alarm on a behaviour-preserving variant is fatal."""
     res = run_all(ctx.prop, ctx.prog.repo)
+    # findings the analysed tree already has are not the variant's doing
+    base = {f.key() for f in ctx.findings}
+    for r in res:
+        keys = [tuple(k) for k in r.pop("keys", [])]
+        extra = [k for k in keys if k not in base]
+        if r["kind"] == "silent" and r["status"] == "false-alarm" and \
+                not extra and (not r.get("error") or ctx.errors):
+            r["status"] = "silent"
+        if r["kind"] == "fire" and r["status"] == "killed" and not extra:
+            r["status"] = "survived"
     fire = [r for r in res if r["kind"] == "fire"]
     silent = [r for r in res if r["kind"] == "silent"]
     ctx.extra["selftest"] = {
@@ -115,8 +127,8 @@ def attach(ctx, mod):
     fa = [r for r in silent if r["status"] == "false-alarm"]
     errs = [r for r in res if r["status"] == "error"]
     if fa:
-        raise AnalysisError("SELFTEST-FALSE-ALARM on behaviour-preserving "
-                            "variant(s): %s" % [(r["name"], r.get("findings"),
-                                                 r.get("error")) for r in fa])
+        ctx.errors.append("SELFTEST-FALSE-ALARM on behaviour-preserving "
+                          "variant(s): %s" % [(r["name"], r.get("findings"),
+                                               r.get("error")) for r in fa])
     if errs:
-        raise AnalysisError("selftest harness error: %s" % errs[:2])
+        ctx.errors.append("selftest harness error: %s" % errs[:2])
